@@ -9,6 +9,10 @@ use std::io::{BufRead, Write};
 
 fn main() {
     let args: Vec<String> = std::env::args().collect();
+    if std::env::var("VERIF_LOG").is_ok() {
+        log::set_max_level(log::LevelFilter::Trace);
+        let _ = log::set_logger(trusttunnel::log_utils::make_stdout_logger());
+    }
     if args.len() > 1 && args[1] == "child" {
         // single-case mode used for cases that may spin: engine + tokens come on argv
         let line = args[2..].join(" ");
@@ -17,13 +21,14 @@ fn main() {
     }
     std::panic::set_hook(Box::new(|_| {}));
     let stdin = std::io::stdin();
-    let stdout = std::io::stdout();
-    let mut out = std::io::BufWriter::new(stdout.lock());
     for line in stdin.lock().lines() {
         let line = line.unwrap();
         if line.trim().is_empty() {
             continue;
         }
-        writeln!(out, "{}", util::run_line(&line)).unwrap();
+        // no persistent stdout lock: engine threads may log to stdout (VERIF_LOG)
+        let out = util::run_line(&line);
+        let mut so = std::io::stdout();
+        writeln!(so, "{}", out).unwrap();
     }
 }
